@@ -30,6 +30,7 @@ import (
 	"os"
 	"path/filepath"
 	"strconv"
+	"strings"
 	"unicode/utf8"
 
 	"google.golang.org/protobuf/encoding/protowire"
@@ -381,19 +382,31 @@ func (d *fastslowRun) compare(t *fastslowTarget, A, B []byte, n1 string, o1 []st
 	if len(o1) != len(o2) {
 		diff += " (panic in one flavour)"
 	}
+	sample := func(id string) {
+		if c.stats["known_"+id] == 1 {
+			c.Sample(fmt.Sprintf("%s witness %s: %s vs %s:%s A=%s", id, t.md.FullName(), n1, n2, diff, HexB(A)))
+		}
+	}
 	switch {
 	case t.reachMS:
 		c.Known("F13", "C08", "message_set_wire_format type in a build without protolegacy")
 		c.Stat("known_F13")
+		sample("F13")
 	case fastslowFL1Class(t.md, A, 6) || fastslowFL1Class(t.md, B, 6):
 		c.Known("FL1", "C08", "repeated string extension with EnforceUTF8: ill-formed UTF-8 accepted by the table-driven path only")
 		c.Stat("known_FL1")
+		sample("FL1")
 	case fastslowOnlyDiff(o1, o2, 1) && (fastslowFWC1Class(t.md, A) || fastslowFWC1Class(t.md, B)):
 		c.Known("FWC1", "C08", "Unmarshal without AllowPartial accepts an uninitialized message in a non-first oneof member (table-driven path only)")
 		c.Stat("known_FWC1")
+		sample("FWC1")
+	case t.legacy && (msgFB1Class(t.md, A) || msgFB1Class(t.md, B)):
+		c.Known("FB1", "C08", "legacy message field allocated by a wrong-wire-type occurrence (table-driven path only)")
+		c.Stat("known_FB1")
+		sample("FB1")
 	case t.legacy:
-		// legacy (pre-protoimpl) generated messages: finding FB1, no unknown-field storage in the
-		// oldest proto3 ones; their codec is not the table-driven one of the property
+		// other differences on legacy (pre-protoimpl) generated messages (e.g. no unknown-field
+		// storage in the oldest proto3 ones): their codec is not the table-driven one of the property
 		c.Stat("legacy_differs")
 		if c.stats["legacy_differs"] <= 3 {
 			c.Sample(fmt.Sprintf("legacy type %s differs:%s A=%s", t.md.FullName(), diff, HexB(A)))
@@ -462,7 +475,39 @@ func (d *fastslowRun) corpus() {
 	}
 }
 
+// fastslowDebug (VERIF_FS_DEBUG=<type>,<xhexA>,<xhexB>): print the decoded and merged dumps of one
+// case for both flavours; a diagnosis aid, not part of the check.
+func fastslowDebug(spec string) {
+	parts := strings.Split(spec, ",")
+	if len(parts) != 3 {
+		return
+	}
+	mt, err := protoregistry.GlobalTypes.FindMessageByName(protoreflect.FullName(parts[0]))
+	if err != nil {
+		fmt.Println("no such type")
+		return
+	}
+	A, B := ParseHexB(parts[1]), ParseHexB(parts[2])
+	for name, mk := range map[string]func() protoreflect.Message{
+		"gen": func() protoreflect.Message { return mt.New() },
+		"dyn": func() protoreflect.Message { return dynamicpb.NewMessage(mt.Descriptor()) }} {
+		part := proto.UnmarshalOptions{AllowPartial: true, NoLazyDecoding: true}
+		m, m2 := mk(), mk()
+		e1 := part.Unmarshal(A, m.Interface())
+		e2 := part.Unmarshal(B, m2.Interface())
+		fmt.Println(name, "decA", e1, strings.Join(msgDump(m), " "))
+		fmt.Println(name, "decB", e2, strings.Join(msgDump(m2), " "))
+		proto.Merge(m.Interface(), m2.Interface())
+		fmt.Println(name, "merge", strings.Join(msgDump(m), " "))
+		fmt.Println(name, "obs", fastslowObserve(mk, A, B))
+	}
+}
+
 func famFastslow(c *Ctx) {
+	if spec := os.Getenv("VERIF_FS_DEBUG"); spec != "" {
+		fastslowDebug(spec)
+		return
+	}
 	d := &fastslowRun{c: c, child: detChildOpen()}
 	d.corpus()
 	targets := fastslowTypes()
